@@ -73,9 +73,10 @@ class Bip32KholawEd25519KeyDerivator(Bip32KholawEd25519KeyDerivatorBase):
         # Discard child if multiple of curve order
         if prvl_int % curve.Order() == 0:
             raise Bip32KeyError("Computed child key is not valid, very unlucky index")
-        # The left part shall fit 32-byte (it always does for keys derived from a master key,
-        # whose left part is below 2^255; a raw key with the highest bits set can overflow)
-        if prvl_int.bit_length() > (Ed25519KholawPrivateKey.Length() // 2) * 8:
+        # The left part shall stay below 2^255, the range of the scalars the public key is computed from
+        # (it always does for keys derived from a master key; a raw key with the highest bits set can exceed it,
+        # and the public key of the child would then differ from the publicly derived one)
+        if prvl_int.bit_length() > (Ed25519KholawPrivateKey.Length() // 2) * 8 - 1:
             raise Bip32KeyError("Computed child key is not valid, the parent key is too big")
 
         return IntegerUtils.ToBytes(prvl_int,
